@@ -9,12 +9,18 @@
 (*   Observe = FALSE: only the multisets (the domain replayed on real code). *)
 (*   ObserveFrom: observations start once that many trees are counted.       *)
 (*   TrackDist = FALSE (domain dumps only): the distribution is not computed.*)
+(*   TrackOperand: the operand of the last Update is kept as a second object *)
+(*   (opnd); it must stay what its own tree contributed whatever is counted   *)
+(*   into the receiver afterwards (OperandIntact).  AdoptLists = TRUE models  *)
+(*   an update() that adopts the operand's value lists for splits the        *)
+(*   receiver lacks instead of copying them: TLC must find OperandIntact      *)
+(*   violated (non-vacuity).                                                 *)
 (*   CacheChecksCount = FALSE: a cache that is not invalidated when trees    *)
 (*   are added - TLC must find CacheFresh violated (non-vacuity).            *)
 EXTENDS SplitDist
-CONSTANTS N, MaxTrees, NW, NT, Observe, ObserveFrom, CacheChecksCount, TrackDist
-VARIABLES rooted, ms, d, cache, out
-vars == <<rooted, ms, d, cache, out>>
+CONSTANTS N, MaxTrees, NW, NT, Observe, ObserveFrom, CacheChecksCount, TrackDist, TrackOperand, AdoptLists
+VARIABLES rooted, ms, d, cache, out, opnd
+vars == <<rooted, ms, d, cache, out, opnd>>
 
 Taxa == 1..N
 AllW == << <<1, 2>>, <<2, 1>>, <<1, 1>> >>
@@ -51,7 +57,8 @@ CacheValidNow == cache.valid /\ (~CacheChecksCount \/ cache.at = d.n)
 View == IF CacheValidNow THEN cache.f ELSE ExactFreqs(d)
 Filled == IF CacheValidNow THEN cache ELSE [valid |-> TRUE, at |-> d.n, f |-> ExactFreqs(d)]
 
-Init == /\ rooted \in {0, 1} /\ ms = <<>> /\ d = EmptyDist /\ cache = NoCache /\ out = [kind |-> "none"]
+NoOperand == [D |-> EmptyDist, shared |-> {}, it |-> <<>>]
+Init == /\ rooted \in {0, 1} /\ ms = <<>> /\ d = EmptyDist /\ cache = NoCache /\ out = [kind |-> "none"] /\ opnd = NoOperand
 
 CountTree(H, wi) ==
     /\ Len(ms) < MaxTrees
@@ -59,6 +66,11 @@ CountTree(H, wi) ==
        /\ (IF ms = <<>> THEN TRUE ELSE LeqItem(ms[Len(ms)], it))
        /\ ms' = Append(ms, it)
        /\ d' = IF TrackDist THEN CountAbs(d, AbsItem(it), AllW[wi], TRUE, FALSE) ELSE d
+       \* value lists shared with the operand grow with it
+       /\ opnd' = IF TrackOperand /\ opnd.shared # {}
+                   THEN [opnd EXCEPT !.D.len = [s \in DOMAIN @ |-> IF s \in opnd.shared /\ s \in AbsItem(it).S
+                                                                  THEN @[s] \o <<AbsItem(it).len[s]>> ELSE @[s]]]
+                   ELSE opnd
     /\ out' = [kind |-> "none"]
     /\ UNCHANGED <<rooted, cache>>
 \* update() from a distribution that counted one tree
@@ -68,26 +80,30 @@ Update(H, wi) ==
        /\ (IF ms = <<>> THEN TRUE ELSE LeqItem(ms[Len(ms)], it))
        /\ ms' = Append(ms, it)
        /\ d' = IF TrackDist THEN UpdateOp(d, CountAbs(EmptyDist, AbsItem(it), AllW[wi], TRUE, FALSE)) ELSE d
+       /\ opnd' = IF TrackOperand
+                   THEN [D |-> CountAbs(EmptyDist, AbsItem(it), AllW[wi], TRUE, FALSE),
+                         shared |-> IF AdoptLists THEN {s \in AbsItem(it).S : s \notin DOMAIN d.cnt} ELSE {}, it |-> <<it>>]
+                   ELSE opnd
     /\ out' = [kind |-> "none"]
     /\ UNCHANGED <<rooted, cache>>
 Freq ==
     /\ Observe /\ d.n >= ObserveFrom /\ d.n > 0
     /\ out' = [kind |-> "freq", f |-> View]
     /\ cache' = Filled
-    /\ UNCHANGED <<rooted, ms, d>>
+    /\ UNCHANGED <<rooted, ms, d, opnd>>
 Consensus ==
     /\ Observe /\ d.n >= ObserveFrom /\ d.n > 0 /\ out.kind = "none"
     /\ out' = [kind |-> "cons",
                g |-> [ti \in 1..NT |-> LET S == RefConsensusSplits(View, AllThr[ti], Taxa, rooted)
                                        IN GraphOfClades(S, Taxa, NoLen(S), rooted)]]
-    /\ UNCHANGED <<rooted, ms, d, cache>>
+    /\ UNCHANGED <<rooted, ms, d, cache, opnd>>
 Collapse ==
     /\ Observe /\ d.n >= ObserveFrom /\ d.n > 0 /\ out.kind = "none"
     /\ out' = [kind |-> "collapse",
                g0 |-> [k \in 1..Len(ms) |-> TreeG(ms[k])],
                g1 |-> [k \in 1..Len(ms) |-> [ti \in 1..NT |->
                           LET g0 == TreeG(ms[k]) IN CollapseRef(g0, LowNodes(g0, View, AllThr[ti], rooted))]]]
-    /\ UNCHANGED <<rooted, ms, d, cache>>
+    /\ UNCHANGED <<rooted, ms, d, cache, opnd>>
 Tops == [i \in 1..Len(ms) |-> AbsItem(ms[i]).S]
 Cred ==
     /\ Observe /\ d.n >= ObserveFrom /\ d.n > 0 /\ out.kind = "none"
@@ -97,7 +113,7 @@ Cred ==
            ranks == [i \in 1..Len(ms) |-> Cardinality({RNorm(sc[j]) : j \in {j \in 1..Len(ms) : RLt(sc[j], sc[i])}})]
            pick == Min(ArgMaxSet(ranks))
        IN out' = [kind |-> "cred", ranks |-> ranks, S |-> tops[pick]]
-    /\ UNCHANGED <<rooted, ms, d, cache>>
+    /\ UNCHANGED <<rooted, ms, d, cache, opnd>>
 
 Next == \/ \E H \in Hiers, wi \in 1..NW : CountTree(H, wi)
         \/ \E H \in Hiers, wi \in 1..NW : Update(H, wi)
@@ -126,6 +142,9 @@ MergeExact == out.kind = "none" =>
               \A k \in 0..Len(ms) :
                  DistDiff(UpdateOp(Fold(EmptyDist, SubSeq(ms, 1, k)), Fold(EmptyDist, SubSeq(ms, k + 1, Len(ms)))), d) = {}
 CacheFresh == View = ExactFreqs(d)
+\* Update(a, b); CountTree(a, ...): the summaries of b are those of b's own tree, as before
+OperandIntact == opnd.it = <<>> \/
+                 DistDiff(opnd.D, CountAbs(EmptyDist, AbsItem(opnd.it[1]), AllW[opnd.it[1].w], TRUE, FALSE)) = {}
 ObservedOK ==
     LET F == ExactFreqs(d) IN
     CASE out.kind = "freq" -> out.f = F
